@@ -123,6 +123,11 @@ fn replay(case: &Case, ctx: &mut Ctx) {
     check_case(case, ctx);
 }
 
+/// (leading-zero threshold, trailing-zero threshold) of default Display; defaults 5 / 15
+fn thresholds() -> (i128, i128) {
+    (crate::param("lower").and_then(|v| v.parse().ok()).unwrap_or(5), crate::param("upper").and_then(|v| v.parse().ok()).unwrap_or(15))
+}
+
 struct Rendering {
     name: &'static str,
     text: String,
@@ -156,7 +161,7 @@ pub fn check_case(case: &Case, ctx: &mut Ctx) {
         let mut weng = String::new();
         b.write_engineering_notation(&mut weng).unwrap();
         // Display preserves digits and scale except for the zero padding at scales [-15,-1]
-        let disp_exact = !(d.s >= -15 && d.s <= -1);
+        let disp_exact = !(d.s as i128 >= -thresholds().1 && d.s <= -1);
         v.push(Rendering { name: "{}", text: disp, exact_repr: disp_exact, class: "display" });
         v.push(Rendering { name: "{} on ref", text: disp_ref, exact_repr: disp_exact, class: "display" });
         v.push(Rendering { name: "{:e}", text: le, exact_repr: true, class: "lower-exp" });
@@ -231,14 +236,15 @@ pub fn check_case(case: &Case, ctx: &mut Ctx) {
 
     // Display: bounded length and notation switch exactly at the documented thresholds
     let disp = &rs[0].text;
-    ctx.check(disp.len() <= digits + 48, "display/too-long", case, || format!("Display of {} has {} chars for {} digits", d.tok(), disp.len(), digits));
+    let (lower, upper) = thresholds();
+    ctx.check(disp.len() as i128 <= digits as i128 + 33 + lower.max(upper), "display/too-long", case, || format!("Display of {} has {} chars for {} digits", d.tok(), disp.len(), digits));
     let has_exp = disp.contains('e') || disp.contains('E');
     // leading zeros between the point and the first digit; trailing zeros of an integer with negative scale
     let leading_zeros: i128 = if d.s > 0 { (d.s as i128 - digits as i128).max(0) } else { 0 };
     let trailing_zeros: i128 = if d.s < 0 { -(d.s as i128) } else { 0 };
-    let want_exp = leading_zeros > 5 || trailing_zeros > 15;
+    let want_exp = leading_zeros > lower || trailing_zeros > upper;
     ctx.check(has_exp == want_exp, "display/notation-threshold", case, || format!(
-        "Display of {} is {:?}: exponent form = {}, but it has {} leading / {} trailing zeros (thresholds 5 / 15)", d.tok(), disp, has_exp, leading_zeros, trailing_zeros));
+        "Display of {} is {:?}: exponent form = {}, but it has {} leading / {} trailing zeros (thresholds {} / {})", d.tok(), disp, has_exp, leading_zeros, trailing_zeros, lower, upper));
     if !has_exp {
         // positional output: sign, digits, at most one point, nothing else
         let body = disp.strip_prefix('-').unwrap_or(disp);
